@@ -104,8 +104,8 @@ PROPS["C06"] = {
         {"bin": "hv", "args": ["c06"]},
         {"bin": "hvt", "args": ["c06"], "tag": "tokio"},
     ],
-    "min": {"quick": {"evaluations": 50_000, "files_served_intact": 1000, "redirects_301": 50, "availability_requests": 1000, "over_the_wire_files_intact": 30},
-            "thorough": {"evaluations": 1_000_000}},
+    "min": {"quick": {"named_pipe_requests": 200, "evaluations": 50_000, "files_served_intact": 1000, "redirects_301": 50, "availability_requests": 1000, "over_the_wire_files_intact": 30},
+            "thorough": {"named_pipe_requests": 200, "evaluations": 1_000_000}},
     "assumptions": [],
     "level_text": "The three real handlers (threaded runtime) and the tokio runtime's serve_dir / serve_as_file_path are called in-process on generated directory trees with uniquely tagged file contents (a few bytes to 5 MiB) and canary files outside the root, for every file's own path and for all compositions of traversal/encoding segments to depth 3 (4 thorough); each response is judged by the confinement rule and by an independent resolver of the documented lookup rules.",
     "level_note": "Trusted: the harness's resolver (uses the file system as judge) and MIME table; no symlinks.",
@@ -117,8 +117,8 @@ PROPS["C17"] = {
     "engines": [
         {"bin": "hv", "args": ["c17"]},
     ],
-    "min": {"quick": {"sequences": 150, "operations": 3000, "token_probes": 10_000, "route_requests": 500, "sessions_expired_at_birth": 100},
-            "thorough": {"sequences": 2400}},
+    "min": {"quick": {"tokens_in_randomness_monitor": 4000, "signouts_through_a_route_handler_effective": 6, "sequences": 150, "operations": 3000, "token_probes": 10_000, "route_requests": 500, "sessions_expired_at_birth": 100},
+            "thorough": {"tokens_in_randomness_monitor": 4000, "signouts_through_a_route_handler_effective": 6, "sequences": 2400}},
     "assumptions": [],
     "level_text": "Random operation sequences are executed on the real AuthProvider while a reference model is stepped alongside; every return value is compared and every token ever issued (and, when the user set changes, every password x uid) is probed after each step; the authenticated-route clause is observed on a real App over loopback.",
     "level_note": "Trusted: the reference model in c17.rs. Expiry is made logical (lifetime 0 vs 3600 s), so no wall-clock decision is involved.",
@@ -130,8 +130,8 @@ PROPS["C16"] = {
     "engines": [
         {"bin": "hv", "args": ["c16"], "needs": ["server"]},
     ],
-    "min": {"quick": {"exhaustive_sequences": 3_900_000, "concurrent_histories": 200, "concurrent_hits_checked": 1000, "handler_requests": 100, "real_sleeps": 2, "multi_host_answers_own_file": 150},
-            "thorough": {"exhaustive_sequences": 90_000_000}},
+    "min": {"quick": {"requests_served_after_a_failed_read": 4, "exhaustive_sequences": 3_900_000, "concurrent_histories": 200, "concurrent_hits_checked": 1000, "handler_requests": 100, "real_sleeps": 2, "multi_host_answers_own_file": 150},
+            "thorough": {"requests_served_after_a_failed_read": 4, "exhaustive_sequences": 90_000_000}},
     "assumptions": [],
     "level_text": "Every operation sequence of length 4 (5 thorough) over 3 keys x 2 hosts x 3 sizes is executed on the real Cache for 12 limit configurations with a shadow-map monitor probing all keys after every operation; long random sequences, concurrent histories through the RwLock (per-key interval check) and the two real handlers over changing files complete the picture.",
     "level_note": "Trusted: the shadow map and interval checker in c16.rs; the one-second cache clock bounds what can be said about staleness (limit + 1 s).",
@@ -143,8 +143,8 @@ PROPS["C15"] = {
     "engines": [
         {"bin": "hv", "args": ["c15"]},
     ],
-    "min": {"quick": {"models": 450, "configs_loaded": 1300, "configs_with_includes": 200, "mutants": 3000, "syntax_errors_located": 1000},
-            "thorough": {"models": 13_000}},
+    "min": {"quick": {"configs_with_an_included_file_over_64KiB": 80, "models": 450, "configs_loaded": 1300, "configs_with_includes": 200, "mutants": 3000, "syntax_errors_located": 1000},
+            "thorough": {"configs_with_an_included_file_over_64KiB": 80, "models": 13_000}},
     "assumptions": [],
     "level_text": "Configurations are rendered from a model in several layouts (incl. include splitting) and loaded by the real parser; the resulting Config is compared field by field with the model, and every single-fault mutant must be rejected, syntax faults with the file name and line the generator knows.",
     "level_note": "Trusted: the model-to-expected-Config mapping in c15.rs (defaults table from the documentation).",
@@ -171,8 +171,8 @@ PROPS["C01"] = {
         {"bin": "hv", "args": ["c01"]},
         {"bin": "hvt", "args": ["c01"]},
     ],
-    "min": {"quick": {"responses_judged": 1000, "keep_alive_continuations": 100, "closes_observed": 50, "malformed_answered_400": 20, "idle_answered_408": 4, "handler_logs_matched": 300, "panic_connections_closed": 10, "half_close_endings_silent": 50, "zero_request_connections_silent": 10, "big_responses_intact": 8},
-            "thorough": {"responses_judged": 20_000}},
+    "min": {"quick": {"idle_from_start_answered_408_and_closed": 4, "responses_judged": 1000, "keep_alive_continuations": 100, "closes_observed": 50, "malformed_answered_400": 20, "idle_answered_408": 4, "handler_logs_matched": 300, "panic_connections_closed": 10, "half_close_endings_silent": 50, "zero_request_connections_silent": 10, "big_responses_intact": 8},
+            "thorough": {"idle_from_start_answered_408_and_closed": 4, "responses_judged": 20_000}},
     "assumptions": [],
     "level_text": "Generated request scripts are played over real TCP connections against real Apps (threaded and tokio) under several segmentations, lock-step and pipelined; every byte received is parsed by a strict HTTP reference reader and compared with a reference model of the expected response sequence and connection disposition, and the handler-side log is compared with what was sent.",
     "level_note": "Trusted: hvcommon::httplab (model, player) and httpref; loopback TCP; generous logical deadlines whose expiry is inconclusive.",
@@ -185,8 +185,8 @@ PROPS["C20"] = {
         {"bin": "hv", "args": ["c20"]},
         {"bin": "hvt", "args": ["c20"]},
     ],
-    "min": {"quick": {"scenarios": 180, "returns_observed": 180, "rebinds_ok": 180, "in_flight_responses_complete": 150},
-            "thorough": {"scenarios": 1400}},
+    "min": {"quick": {"rejecting_condition_returns_and_rebinds_ok": 5, "fd_exhaustion_survived_and_serving": 1, "scenarios": 180, "returns_observed": 180, "rebinds_ok": 180, "in_flight_responses_complete": 150},
+            "thorough": {"rejecting_condition_returns_and_rebinds_ok": 5, "fd_exhaustion_survived_and_serving": 1, "scenarios": 1400}},
     "assumptions": [],
     "level_text": "Real Apps are started on loopback, put into generated traffic states (idle, half-sent, running handlers, large responses, WebSockets, occupied pools), signalled at varied instants with delays injected at the accept-loop failpoints, and observed: time until run returns, re-bind of the port, completeness of every in-flight response whose handler had started before the signal.",
     "level_note": "Trusted: hvcommon::shutlab; the 10 s progress bound; loopback TCP.",
@@ -199,8 +199,8 @@ PROPS["C04"] = {
         {"bin": "hv", "args": ["c04"]},
         {"bin": "hvt", "args": ["c04"]},
     ],
-    "min": {"quick": {"apps": 1000, "answers_matching_reference": 20_000, "requests_matching_several_routes": 3000, "websocket_upgrades": 1000, "expected_host_route": 1000, "expected_default_route": 3000, "expected_no_route": 1000},
-            "thorough": {"apps": 3800}},
+    "min": {"quick": {"keepalive_sequences_ending_in_upgrade": 1500, "apps": 1000, "answers_matching_reference": 20_000, "requests_matching_several_routes": 3000, "websocket_upgrades": 1000, "expected_host_route": 1000, "expected_default_route": 3000, "expected_no_route": 1000},
+            "thorough": {"keepalive_sequences_ending_in_upgrade": 1500, "apps": 3800}},
     "assumptions": [],
     "level_text": "Generated applications are run as real Apps on loopback (threaded and tokio); every request's answering handler (identity in the response body, or on the raw stream for WebSocket upgrades) is compared with a reference router, and each request is repeated with a different method, query and extra headers, which must not change the choice.",
     "level_note": "Trusted: the reference router in hvcommon::routelab with an independent dynamic-programming glob matcher as predicate (the same oracle C05 uses).",
@@ -212,8 +212,8 @@ PROPS["C09"] = {
     "engines": [
         {"bin": "hv", "args": ["c09"]},
     ],
-    "min": {"quick": {"exchanges": 3000, "cut_responses": 2500, "complete_responses": 100, "stall_and_refusal_cases": 40, "malformed_upstream_cases": 200, "upstream_records_checked": 2000, "proxy_handler_calls": 100, "load_balancer_histories": 200, "late_bytes_cases": 15, "concurrent_rotation_rounds": 35},
-            "thorough": {"exchanges": 40_000}},
+    "min": {"quick": {"concurrent_rotations_with_overlapping_exchanges": 20, "exchanges": 3000, "cut_responses": 2500, "complete_responses": 100, "stall_and_refusal_cases": 40, "malformed_upstream_cases": 200, "upstream_records_checked": 2000, "proxy_handler_calls": 100, "load_balancer_histories": 200, "late_bytes_cases": 15, "concurrent_rotation_rounds": 35},
+            "thorough": {"concurrent_rotations_with_overlapping_exchanges": 20, "exchanges": 40_000}},
     "assumptions": [],
     "level_text": "proxy_request and proxy_handler are executed against a scripted upstream for every enumerated fault: each valid response cut at every byte offset, non-HTTP answers, refusal, silence, close, trickle; the returned response and its latency are judged against the reference reader's verdict on what the upstream actually sent, and the upstream's record of the relayed request is compared with the client's request.",
     "level_note": "Trusted: hvcommon::net scripted server, httpref; wall-clock bound timeout + 3 s.",
@@ -238,8 +238,8 @@ PROPS["C12"] = {
     "engines": [
         {"bin": "hv", "args": ["c12"]},
     ],
-    "min": {"quick": {"scenarios": 150, "handler_events_observed": 4000, "messages_dispatched_exactly_once": 2000, "broadcasts": 150, "disconnects_graceful": 400, "single_handler_thread_scenarios": 70, "unicasts_delivered": 300, "bulk_unicasts_intact": 6, "busy_clients_kept_and_fully_dispatched": 6},
-            "thorough": {"scenarios": 1450}},
+    "min": {"quick": {"slow_fragment_clients_fully_dispatched": 6, "scenarios": 150, "handler_events_observed": 4000, "messages_dispatched_exactly_once": 2000, "broadcasts": 150, "disconnects_graceful": 400, "single_handler_thread_scenarios": 70, "unicasts_delivered": 300, "bulk_unicasts_intact": 6, "busy_clients_kept_and_fully_dispatched": 6},
+            "thorough": {"slow_fragment_clients_fully_dispatched": 6, "scenarios": 1450}},
     "assumptions": [],
     "level_text": "Scenarios of several reference WebSocket clients with random scripts run against the real AsyncWebsocketApp (linked to a real App) under varied pool sizes, poll intervals, heartbeat settings and failpoint delays; the handler-side event log and the frames each client received are checked for exactly-once connect/message/disconnect, addressing of unicasts, coverage of broadcasts, per-client order (single handler thread) and termination of run.",
     "level_note": "Trusted: the scenario oracle in c12.rs, hvcommon::wsref; bounded waits (10 s for run to return).",
